@@ -8,6 +8,7 @@ import (
 	"sort"
 	"strconv"
 	"strings"
+	"time"
 
 	"github.com/metrico/qryn/reader/model"
 	"github.com/prometheus/prometheus/model/labels"
@@ -136,7 +137,23 @@ func c17Expected(c *c17E2ECase, ms []*labels.Matcher) []c17Want {
 	return res
 }
 
-// c17IdxSel: would the label index select the series — every matcher needs a row (the label is present) whose
+// c17PromSel: Prometheus' reading — every matcher holds on the value of its label, "" when the series does not have it
+func c17PromSel(s c17E2ESeries, ms []*labels.Matcher) bool {
+	for _, m := range ms {
+		v := ""
+		for _, kv := range s.Labels {
+			if kv[0] == m.Name {
+				v = kv[1]
+			}
+		}
+		if !m.Matches(v) {
+			return false
+		}
+	}
+	return true
+}
+
+// c17IdxSel: would the label index of the pinned tree select the series — every matcher needs a row (the label is present) whose
 // value satisfies it, regular expressions read anchored (Prometheus) or as a search (ClickHouse match on the raw value)
 func c17IdxSel(s c17E2ESeries, ms []*labels.Matcher, anchored bool) bool {
 	for _, m := range ms {
@@ -161,12 +178,72 @@ func c17IdxSel(s c17E2ESeries, ms []*labels.Matcher, anchored bool) bool {
 	return true
 }
 
+// c17FpEvalTie: the fp_sel sub-query of the statement Select emitted, executed alone by the reference interpreter, against
+// the Lean meaning of the planned query (Prom.FpQuery.eval, the definition select_exact is about) over the same index
+// rows; the answers of ClickHouse match() are handed to the driver as a table.
+func c17FpEvalTie(db *fakes.DB, c *c17E2ECase, ms []*labels.Matcher, sampleSQL string) (op, impl string, err error) {
+	body, _, err := c17WithBody(sampleSQL, "fp_sel")
+	if err != nil {
+		return "", "", err
+	}
+	_, rows, err := db.Exec(body)
+	if err != nil {
+		return "", "", fmt.Errorf("reference interpreter: %v in: %s", err, body)
+	}
+	var fps []uint64
+	for _, rw := range rows {
+		fps = append(fps, rw[0].I.Uint64())
+	}
+	hx := func(s string) string { return h.Hex([]byte(s)) }
+	var rowStrs, tbl []string
+	values := map[string]bool{"": true}
+	for _, s := range c.Series {
+		for _, kv := range s.Labels {
+			values[kv[1]] = true
+			rowStrs = append(rowStrs, strings.Join([]string{hx(c17Day), hx(kv[0]), hx(kv[1]), strconv.FormatUint(s.Fp, 10), strconv.Itoa(s.Type)}, "~"))
+		}
+	}
+	for _, m := range ms {
+		if m.Type != labels.MatchRegexp && m.Type != labels.MatchNotRegexp {
+			continue
+		}
+		pat := "^(?:" + m.Value + ")$"
+		re, err := regexp.Compile(pat)
+		if err != nil {
+			continue
+		}
+		for v := range values {
+			if re.MatchString(v) {
+				tbl = append(tbl, hx(pat)+"~"+hx(v))
+			}
+		}
+	}
+	sort.Strings(tbl)
+	join := func(x []string) string {
+		if len(x) == 0 {
+			return "_"
+		}
+		return strings.Join(x, ",")
+	}
+	date := time.Unix(0, c.Start*1000000).UTC().Add(-30 * time.Minute).Format("2006-01-02")
+	return fmt.Sprintf("c17fpeval %s 2 %s %s %s", hx(date), c17MatcherArgs(ms), join(rowStrs), join(tbl)), c17FpsStr(fps), nil
+}
+
 func c17RunE2E(r *h.Result, sc *fakes.Script, q storage.Querier, c *c17E2ECase) error {
+	_, _, err := c17RunE2ETie(r, sc, q, c)
+	return err
+}
+
+func c17RunE2ETie(r *h.Result, sc *fakes.Script, q storage.Querier, c *c17E2ECase) (tieOp, tieImpl string, err error) {
 	db := c17BuildDB(c)
 	var execErr error
+	sampleSQL := ""
 	sc.SetResponder(func(qs string) ([]string, [][]driver.Value, error) {
 		if strings.Contains(qs, "FROM settings") || strings.HasPrefix(strings.TrimSpace(qs), "SHOW TABLES") {
 			return []string{"a", "b"}, nil, nil
+		}
+		if strings.Contains(qs, "fp_sel") {
+			sampleSQL = qs
 		}
 		cols, rows, err := db.Exec(qs)
 		if err != nil {
@@ -179,17 +256,24 @@ func c17RunE2E(r *h.Result, sc *fakes.Script, q storage.Querier, c *c17E2ECase) 
 	for _, m := range c.Matchers {
 		lm, err := labels.NewMatcher(c17MatchType(m.Type), m.Name, m.Value)
 		if err != nil {
-			return fmt.Errorf("generator made an invalid matcher: %v", err)
+			return "", "", fmt.Errorf("generator made an invalid matcher: %v", err)
 		}
 		ms = append(ms, lm)
 	}
 	got, err := c17Drain(q.Select(false, &storage.SelectHints{Start: c.Start, End: c.End}, ms...))
 	if execErr != nil {
-		return fmt.Errorf("reference interpreter: %v", execErr)
+		return "", "", fmt.Errorf("reference interpreter: %v", execErr)
 	}
 	if err != nil {
-		return fmt.Errorf("Select: %v", err)
+		return "", "", fmt.Errorf("Select: %v", err)
 	}
+	if sampleSQL != "" {
+		tieOp, tieImpl, err = c17FpEvalTie(db, c, ms, sampleSQL)
+		if err != nil {
+			return "", "", err
+		}
+	}
+	c17SeriesOrder(r, got, *c) // the SeriesSet level: strictly ascending by labels.Compare
 	want := c17Expected(c, ms)
 	c.Got, c.Want = "", ""
 	gotBy := map[uint64]c17Series{}
@@ -276,7 +360,7 @@ func c17RunE2E(r *h.Result, sc *fakes.Script, q storage.Querier, c *c17E2ECase) 
 			r.Violate("C17/select-series-extra", fmt.Sprintf("series %v does not satisfy the matchers but is selected", g.Labels), *c)
 		}
 	}
-	return nil
+	return tieOp, tieImpl, nil
 }
 
 var c17Names = []string{"__name__", "job", "env", "instance", "a"}
@@ -517,17 +601,23 @@ func c17GenE2EBase(rng *h.Rng) c17E2ECase {
 }
 
 func c17E2E(r *h.Result, rng *h.Rng, n int) error {
-	r.Stream("e2e: real Select → SQL text → reference interpreter (fakes.DB: UInt8 typing of bitShiftLeft, unanchored match) over a generated label index / series / samples → scripted driver → real row loop; oracle: Prometheus labels.Matcher.Matches on the stored label sets and the inclusive window")
+	r.Stream("e2e: (tie) the fp_sel sub-query of the emitted statement executed alone by the reference interpreter vs Prom.FpQuery.eval over the same index rows (c17fpeval; match() answers handed to the driver); real Select → SQL text → reference interpreter (fakes.DB: UInt8 typing of bitShiftLeft, unanchored match) over a generated label index / series / samples → scripted driver → real row loop; oracle: Prometheus labels.Matcher.Matches on the stored label sets and the inclusive window")
 	sc := fakes.NewScript(nil)
 	defer sc.Close()
 	q, err := c17Querier(sc, "c17-e2e")
 	if err != nil {
 		return err
 	}
+	var ops, impl []string
+	var cases []any
 	for i := 0; i < n; i++ {
 		c := c17GenE2E(rng)
-		if err := c17RunE2E(r, sc, q, &c); err != nil {
+		op, im, err := c17RunE2ETie(r, sc, q, &c)
+		if err != nil {
 			return err
+		}
+		if op != "" {
+			ops, impl, cases = append(ops, op), append(impl, im), append(cases, c)
 		}
 		b, _ := json.Marshal(struct {
 			S []c17E2ESeries
@@ -546,7 +636,7 @@ func c17E2E(r *h.Result, rng *h.Rng, n int) error {
 			r.Sample(c)
 		}
 	}
-	return nil
+	return r.Compare("e2e", ops, impl, cases)
 }
 
 func init() {
@@ -570,6 +660,10 @@ func init() {
 			return err
 		}
 		r.Case("replay", true)
-		return c17RunE2E(r, sc, q, &c)
+		op, im, err := c17RunE2ETie(r, sc, q, &c)
+		if err != nil || op == "" {
+			return err
+		}
+		return r.Compare("e2e", []string{op}, []string{im}, []any{c})
 	}
 }
